@@ -667,6 +667,32 @@ def r12_9(ctx):
             cands = [nd for nd in stmts if (ts := task_store(nd.stmt, field)) is not None and ts[0] == op and norm(ts[1]) == param]
             n += 1
             where = f.where
+            if not cands and op == "=":
+                # table-driven form:  for name, value in (("completed", completed), ..): if value is not None: setattr(task, name, value)
+                from ..astutil import single_defs as _sdf129
+                sd129 = _sdf129(f.node)
+                table_ok = None
+                for lp in walk_local(f.node):
+                    if not (isinstance(lp, ast.For) and isinstance(lp.target, ast.Tuple) and len(lp.target.elts) == 2 and all(isinstance(e_, ast.Name) for e_ in lp.target.elts)):
+                        continue
+                    it = lp.iter
+                    if isinstance(it, ast.Name) and it.id in sd129:
+                        it = sd129[it.id]
+                    if not isinstance(it, (ast.Tuple, ast.List)):
+                        continue
+                    an, vn = lp.target.elts[0].id, lp.target.elts[1].id
+                    sets = [c_ for c_ in ast.walk(lp) if isinstance(c_, ast.Call) and norm(c_.func) == "setattr" and len(c_.args) == 3 and norm(c_.args[1]) == an and norm(c_.args[2]) == vn]
+                    if not sets:
+                        continue
+                    guarded = any(isinstance(i_, ast.If) and norm(i_.test) == f"{vn} is not None" and any(c_ in list(ast.walk(i_)) for c_ in sets) for i_ in ast.walk(lp))
+                    for e_ in it.elts:
+                        if isinstance(e_, ast.Tuple) and len(e_.elts) == 2 and isinstance(e_.elts[0], ast.Constant) and e_.elts[0].value == field:
+                            table_ok = guarded and norm(e_.elts[1]) == param and (guard is not None)
+                if table_ok:
+                    ctx.ok(where, f"`{param}` is stored in task.{field} by the table-driven setattr loop, under `is not None`", f.fq)
+                    continue
+                if table_ok is None and any(isinstance(c_, ast.Call) and norm(c_.func) == "setattr" for c_ in walk_local(f.node)):
+                    raise AnalysisError(f"Progress.{mname}: task attributes are stored through setattr in a form this rule does not read; the accounting clause for `{param}` is not decided")
             if not cands:
                 ctx.violation(f.fq, f"task.{field} {op} {param}", where, f"Progress.{mname} has no statement `task.{field} {op} {param}`: {mname}({param}=..) does not {'add the amount to' if op == '+=' else 'store the value in'} task.{field}")
                 continue
